@@ -66,19 +66,3 @@ void h_op(void) {
   WITNESS("self_swap_in_place", op == 10 && k1 == 2); WITNESS("self_swap_heap", op == 10 && k1 == 4);
   HARNESS_END();
 }
-/* the right-hand side of an assignment is owned by the value the target holds: it must be read before that value is destroyed */
-void h_nested(void) {
-  IN(u8, k); IN(i32, x); IN(u8, how); VASSUME(k < 5 && how < 2 && x >= 0 && x < 30000);
-#ifdef KFIX
-  k = KFIX; how = HOWFIX;      /* one obligation per (child kind, assignment form) */
-#endif
-  u8 none[10] = {0}; ledger_reset(none);
-  i64 o1[9];
-  i64 rc = w_nested(k, x, how, (u64*)o1);
-  LEDGER_OK();
-  VASSERT(rc == 0, "nothing throws");
-  OBS_OK(o1, "target");
-  VASSERT(STATE_IS(o1, k, x), "assignment from an any owned by the target's current value: the target holds that any's value afterwards");
-  WITNESS("nonempty_child", k != 0 || how < 2);
-  HARNESS_END();
-}
